@@ -123,9 +123,32 @@ def check_pair(ctx, tyname, self_suffix):
         ctx.lost('C18.1', 'From<%s> for Envelope / TryFrom<Envelope> for %s' % (tyname, tyname))
         return None, None
     w = ws[0]
-    wt = TermBuilder(F, w).return_term()
+    wtb = TermBuilder(F, w)
+    wt = wtb.return_term()
     wr = {}
     writer_roles(wt, P1, wr)
+    # every way out of the writer writes every field: an exit that lacks a field must have been chosen by a test of that field
+    # (`if note.is_empty() { return e }` may drop the note, not the date)
+    rds = ret_defs(wtb)
+    if len(rds) > 1:
+        for bi, si, t in rds:
+            got = {}
+            writer_roles(t, P1, got)
+            for path in wr:
+                if path is None or path == ('<const>',) or path in got:
+                    continue
+                # switches that decide reaching this exit and mention the field
+                deciding = []
+                for sb, dt in switch_on(wtb, w, lambda d: True):
+                    fp = first_field_path(dt, P1)
+                    # a test of the field itself, or of an enclosing variant / option the field lives in
+                    if bi in w.reachable(sb) and fp is not None and (tuple(path[:len(fp)]) == tuple(fp) or '.'.join(path).startswith('.'.join(fp))):
+                        deciding.append(sb)
+                if deciding:
+                    ctx.ok('C18.1', ctx.site(w, bi, si), '%s exit without %s is chosen by a test of that field' % (tyname, '.'.join(path)), nontrivial=False)
+                else:
+                    ctx.fail('C18.1', ctx.site(w, bi, si), '%s writer has an exit that does not write %s although no test of that field leads there: the field is lost on that path' % (tyname, '.'.join(path)),
+                             key='C18.1|%s|dropped|%s' % (tyname, '.'.join(path)))
     # reader: the impl that builds the struct
     reader = None
     rr = {}
